@@ -281,6 +281,7 @@ func (p *idp) token(w http.ResponseWriter, r *http.Request, idpID string) {
 	}
 
 	issued := map[string]any{"ex": false}
+	var mintedDoc map[string]any
 	if issue {
 		if lg == nil {
 			// lenient answer to an unknown code / token: invent an anonymous login
@@ -291,12 +292,18 @@ func (p *idp) token(w http.ResponseWriter, r *http.Request, idpID string) {
 		}
 		doc, iss := p.mint(ans, grant, lg, rr)
 		issued = iss
+		mintedDoc = doc
 		if status == 200 && !strings.HasPrefix(mode, "body:") {
 			body, _ = json.Marshal(doc)
 		}
 	}
 	if strings.HasPrefix(mode, "body:") {
-		body = oddBody(strings.TrimPrefix(mode, "body:"))
+		cls := strings.TrimPrefix(mode, "body:")
+		if strings.HasPrefix(cls, "minted-") && mintedDoc != nil {
+			body = mangleMinted(cls, mintedDoc)
+		} else {
+			body = oddBody(cls)
+		}
 	}
 	p.mu.Unlock()
 
@@ -522,6 +529,45 @@ func (p *idp) mint(ans *AnsSpec, grant string, lg *login, old *rtRec) (map[strin
 		doc["nested"] = map[string]any{"a": []any{1, "x", nil}}
 	}
 	return doc, issued
+}
+
+// mangleMinted renders the genuine token response (its tokens are registered secrets) in a form the service cannot decode
+// or cannot use: a careless error path would echo it.
+func mangleMinted(cls string, doc map[string]any) []byte {
+	d := map[string]any{}
+	for k, v := range doc {
+		d[k] = v
+	}
+	switch cls {
+	case "minted-expStr":
+		d["expires_in"] = "3600"
+	case "minted-expFloat":
+		d["expires_in"] = 1.5
+	case "minted-typeArr":
+		d["token_type"] = []any{"Bearer"}
+	case "minted-bareClaims":
+		// the ID token replaced by its bare claims object (what jwt.Parse without verification also accepts)
+		if t, ok := d["id_token"].(string); ok {
+			if parts := strings.Split(t, "."); len(parts) == 3 {
+				if b, err := b64.DecodeString(parts[1]); err == nil {
+					d["id_token"] = string(b)
+				}
+			}
+		}
+	case "minted-jsonJws":
+		// the ID token in the JWS JSON serialisation instead of the compact one
+		if t, ok := d["id_token"].(string); ok {
+			if parts := strings.Split(t, "."); len(parts) == 3 {
+				j, _ := json.Marshal(map[string]any{"payload": parts[1], "protected": parts[0], "signature": parts[2]})
+				d["id_token"] = string(j)
+			}
+		}
+	}
+	b, _ := json.Marshal(d)
+	if cls == "minted-trailing" {
+		b = append(b, []byte(`}} trailing garbage`)...)
+	}
+	return b
 }
 
 func pickAny(i int, opts ...any) any { return opts[((i%len(opts))+len(opts))%len(opts)] }
